@@ -1,6 +1,7 @@
 import MoneroModel.Proofs.TxComplete2
 import MoneroModel.Proofs.LenProofs
 import MoneroModel.Proofs.TxSound1
+import MoneroModel.Proofs.TxDecodedWF
 open Monero
 /-! # C02 — well-formed values survive serialise-then-parse; length accounting is exact
 
@@ -9,7 +10,11 @@ the value and leaves exactly the rest, i.e. consumes exactly the bytes produced.
 (`wfTx`, `wfBlock`, … in Proofs/TxComplete*.lean; DESIGN.md Appendix B) are explicit: implicit-length vectors have the
 lengths the counts / RingCT type imply, every varint-encoded number is a u64, keys are 32 bytes, explicit-length
 vectors respect the allocation cap `Gen.CAP` that the decoder enforces (C04 requires that cap), the `u32` Bulletproof
-count is < 2^32 and the one-byte BulletproofPlus count is < 256 (see the known finding in DESIGN.md §7 item 4). -/
+count is < 2^32 and the one-byte BulletproofPlus count is < 256 (see the known finding in DESIGN.md §7 item 4).
+
+Extra sub-fields (the "component records" of transaction.rs:872-919) are C16's subject: `C16_single_strict` gives their round
+trip, with ONE exception that this file does not repeat — a `Padding(n < 255)` sub-field followed by further bytes is not
+prefix-free by design (`¬ ShortPad` there). `C02_decoded_wf_*` below show that the `wf*` predicates are not over-restrictive. -/
 namespace C02
 
 theorem C02_complete_varint : Complete U64 encVarint varint := complete_varint'
@@ -89,6 +94,122 @@ theorem C02_partial_count {α} (wf : α → Prop) (enc : α → Bytes) (dec : De
 theorem C02_transaction_roundtrip (t : Tx) (h : wfTx t) (r : Bytes) :
     tx (encTx t ++ r) = some (t, r) ∧ lenTx t = (encTx t).length ∧ (r ≠ [] → strict tx (encTx t ++ r) = none) :=
   ⟨complete_tx t r h, lenTx_eq t, fun hr => C02_strict wfTx encTx tx complete_tx t h r hr⟩
+
+/-! ## Added after the audit -/
+
+/-- **The well-formedness hypotheses are the weakest possible**: everything the decoder accepts is well-formed. With
+`C02_complete_transaction` (well-formed ⇒ round trip) and C01 soundness this gives `wfTx t ↔ t is the strict parse of some byte
+string ↔ t survives serialise-then-parse`; an over-restrictive `wfTx` (a silently narrowed C02) would make this theorem false. -/
+theorem C02_decoded_wf_transaction (b : Bytes) (t : Tx) (r : Bytes) (h : tx b = some (t, r)) : wfTx t := decoded_wf_tx b t r h
+theorem C02_decoded_wf_block (b : Bytes) (x : Block) (r : Bytes) (h : block b = some (x, r)) : wfBlock x := decoded_wf_block b x r h
+theorem C02_wf_iff_roundtrip_transaction (t : Tx) : wfTx t ↔ strict tx (encTx t) = some t := wfTx_iff_parsed_enc t
+theorem C02_wf_iff_roundtrip_block (x : Block) : wfBlock x ↔ strict block (encBlock x) = some x := wfBlock_iff_parsed_enc x
+theorem C02_wf_iff_parsed_transaction (t : Tx) : wfTx t ↔ ∃ b, strict tx b = some t := wfTx_iff_parsed t
+theorem C02_wf_iff_parsed_block (x : Block) : wfBlock x ↔ ∃ b, strict block b = some x := wfBlock_iff_parsed x
+/-- the same for the component records -/
+theorem C02_decoded_wf_prefix (b : Bytes) (x : Prefix) (r : Bytes) (h : prefix' b = some (x, r)) : wfPrefix x := decoded_wf_prefix b x r h
+theorem C02_decoded_wf_rct_base (i o : Nat) (b : Bytes) (x : Base) (r : Bytes) (h : base i o b = some (x, r)) : wfBase i o x :=
+  decoded_wf_base i o b x r h
+theorem C02_decoded_wf_rct_prunable (ty i o m : Nat) (b : Bytes) (x : Option Prunable) (r : Bytes)
+    (h : prunable ty i o m b = some (x, r)) : (ty = 0 ∧ x = none) ∨ (ty ≠ 0 ∧ ∃ p, x = some p ∧ wfPrunable ty i o m p) :=
+  decoded_wf_prunable ty i o m b x r h
+theorem C02_decoded_wf_header (b : Bytes) (x : Header) (r : Bytes) (h : header b = some (x, r)) : wfHeader x := decoded_wf_header b x r h
+
+/-- primitives: fixed-width little-endian unsigned integers (`u8 … u64`: k = 1, 2, 4, 8) -/
+theorem C02_complete_uint (k : Nat) : Complete (fun n => n < 256 ^ k) (encUintLE k) (uintLE k) := by
+  intro n r hn
+  unfold uintLE encUintLE
+  rw [bind_eq (takeN_app _ r k (leBytes_length _ k))]
+  simp only [pure']
+  rw [foldr_leBytes n k hn]
+example : (300 : Nat) < 256 ^ 2 := by decide
+/-- reported length of a fixed-width integer (`Ok(size_of::<$ty>())`) = bytes written -/
+theorem C02_len_uint (k n : Nat) : (encUintLE k n).length = k := leBytes_length n k
+/-- signed fixed-width integers (`i8 … i64`): every value of the type's range round-trips -/
+theorem C02_complete_int (k : Nat) (hk : 0 < k) :
+    Complete (fun v : Int => -((256 ^ k / 2 : Nat) : Int) ≤ v ∧ v < ((256 ^ k / 2 : Nat) : Int)) (encIntLE k) (intLE k) := by
+  intro v r ⟨hlo, hhi⟩
+  have heven : 256 ^ k = 2 * (256 ^ k / 2) := by
+    obtain ⟨j, rfl⟩ : ∃ j, k = j + 1 := ⟨k - 1, by omega⟩
+    rw [Nat.pow_succ]; omega
+  have hpos : (0 : Int) < ((256 ^ k : Nat) : Int) := by exact_mod_cast Nat.pow_pos (by decide : 0 < 256)
+  have hmod_nonneg := Int.emod_nonneg v (Int.ne_of_gt hpos)
+  have hmod_lt := Int.emod_lt_of_pos v hpos
+  have hn : (v % ((256 ^ k : Nat) : Int)).toNat < 256 ^ k := by omega
+  have hu := C02_complete_uint k _ r hn
+  unfold intLE encIntLE
+  unfold encUintLE at hu
+  rw [bind_eq hu]
+  simp only [pure']
+  congr 2
+  by_cases hv : 0 ≤ v
+  · have e : v % ((256 ^ k : Nat) : Int) = v := Int.emod_eq_of_lt hv (by omega)
+    rw [e]
+    have : v.toNat < 256 ^ k / 2 := by omega
+    simp only [this, if_true]; omega
+  · have e : v % ((256 ^ k : Nat) : Int) = v + ((256 ^ k : Nat) : Int) := by
+      rw [← Int.add_emod_right]; exact Int.emod_eq_of_lt (by omega) (by omega)
+    rw [e]
+    have : ¬ (v + ((256 ^ k : Nat) : Int)).toNat < 256 ^ k / 2 := by omega
+    simp only [this, if_false]; omega
+example : -(((256 ^ 1 / 2 : Nat)) : Int) ≤ (-128 : Int) ∧ (-128 : Int) < ((256 ^ 1 / 2 : Nat) : Int) := by decide
+/-- fixed byte records (`Key`, `Hash`, `KeyImage`, `CtKey`: 32; `Hash8`: 8; `Signature`: 64; `Key64`: 2048; `RangeSig`: 6176;
+`MultisigKlrki`: 128) -/
+theorem C02_complete_bytes (k : Nat) : Complete (fun x : Bytes => x.length = k) id (takeN k) := complete_takeN k
+/-- `bool`: both values round-trip (the decoder is lenient — any non-zero byte is `true` — which concerns C01, not C02) -/
+theorem C02_complete_bool : Complete (fun _ => True) encBool boolDec := by
+  intro v r _; cases v <;> rfl
+/-- `RctType` as a stand-alone codec: the seven types round-trip -/
+theorem C02_complete_rcttype : Complete (fun ty => ty ≤ 6) encRctType rctType := by
+  intro ty r h
+  have : ∀ n, n ≤ 6 → ∀ r, rctType (encRctType n ++ r) = some (n, r) := by
+    intro n hn r
+    have h7 : n = 0 ∨ n = 1 ∨ n = 2 ∨ n = 3 ∨ n = 4 ∨ n = 5 ∨ n = 6 := by omega
+    rcases h7 with rfl | rfl | rfl | rfl | rfl | rfl | rfl <;> rfl
+  exact this ty h r
+/-- unprefixed sized vectors (`consensus_decode_sized_vec` / `encode_sized_vec`), exported from Proofs/TxComplete -/
+theorem C02_complete_sized_vec {α} (sz : Nat) (wf : α → Prop) (e : α → Bytes) (d : Dec α) (h : Complete wf e d)
+    (xs : List α) (r : Bytes) (hw : ∀ x ∈ xs, wf x) (hc : xs.length * sz ≤ CAP) :
+    sizedVec sz d xs.length (encSized e xs ++ r) = some (xs, r) := complete_sized sz wf e d h xs r hw hc
+
+/-- concrete instances of the strict / partial clauses (the generic hypothesis `hc` is discharged) -/
+theorem C02_strict_block (x : Block) (hx : wfBlock x) (t : Bytes) (ht : t ≠ []) : strict block (encBlock x ++ t) = none :=
+  C02_strict wfBlock encBlock block complete_block x hx t ht
+theorem C02_strict_prefix (x : Prefix) (hx : wfPrefix x) (t : Bytes) (ht : t ≠ []) : strict prefix' (encPrefix x ++ t) = none :=
+  C02_strict wfPrefix encPrefix prefix' complete_prefix x hx t ht
+theorem C02_strict_header (x : Header) (hx : wfHeader x) (t : Bytes) (ht : t ≠ []) : strict header (encHeader x ++ t) = none :=
+  C02_strict wfHeader encHeader header complete_header x hx t ht
+theorem C02_block_roundtrip (x : Block) (h : wfBlock x) (r : Bytes) :
+    block (encBlock x ++ r) = some (x, r) ∧ lenBlock x = (encBlock x).length ∧ (r ≠ [] → strict block (encBlock x ++ r) = none) :=
+  ⟨complete_block x r h, lenBlock_eq x, fun hr => C02_strict_block x h r hr⟩
+
+/-- sample encodings: one key input (ring of one), no outputs, empty extra; then the body of each kind -/
+def sampleBytes (version : Nat) (body : Bytes) : Bytes :=
+  [UInt8.ofNat version, 0, 1, 2, 0, 1, 1] ++ List.replicate 32 0 ++ [0, 0] ++ body
+def samples : List (Nat × Option Nat × Bytes) := [
+  (1, none, sampleBytes 1 (List.replicate 64 0)),                                   -- version 1: one signature
+  (2, some 1, sampleBytes 2 ([1, 0] ++ List.replicate 96 0)),                       -- Full: one MLSAG (1 row × 2 keys, cc)
+  (2, some 2, sampleBytes 2 ([2, 0] ++ List.replicate 32 0 ++ List.replicate 96 0)),   -- Simple: pseudo out in the base, one MLSAG
+  (2, some 3, sampleBytes 2 ([3, 0] ++ [0, 0, 0, 0] ++ List.replicate 96 0 ++ List.replicate 32 0)),  -- Bulletproof: u32 count
+  (2, some 4, sampleBytes 2 ([4, 0] ++ [0] ++ List.replicate 96 0 ++ List.replicate 32 0)),           -- Bulletproof2: varint count
+  (2, some 5, sampleBytes 2 ([5, 0] ++ [0] ++ List.replicate 96 0 ++ List.replicate 32 0)),           -- Clsag
+  (2, some 6, sampleBytes 2 ([6, 0] ++ [0] ++ List.replicate 96 0 ++ List.replicate 32 0)),           -- BulletproofPlus: u8 count
+  (0, some 0, sampleBytes 0 [0]), (3, some 0, sampleBytes 3 [0])]                                    -- Null under versions 0 and 3
+/-- **non-vacuity of `wfTx` on every dispatch path**: version 1 and each RingCT type 1..6 (and versions 0, 3) have a well-formed
+transaction with a key input — the hypotheses of `C02_complete_transaction` are satisfiable on all of them -/
+theorem C02_wf_inhabited : ∀ s ∈ samples, ∃ t, wfTx t ∧ t.pre.version = s.1 ∧ t.base.map (·.ty) = s.2.1 ∧ t.pre.ins ≠ [] ∧
+    strict tx s.2.2 = some t := by
+  have key : ∀ s ∈ samples, (strict tx s.2.2).map (fun t => (t.pre.version, t.base.map (·.ty), t.pre.ins.length)) = some (s.1, s.2.1, 1) := by
+    decide +kernel
+  intro s hs
+  have h := key s hs
+  cases ht : strict tx s.2.2 with
+  | none => rw [ht] at h; simp at h
+  | some t =>
+    rw [ht] at h
+    simp only [Option.map_some, Option.some.injEq, Prod.mk.injEq] at h
+    obtain ⟨h1, h2, h3⟩ := h
+    exact ⟨t, (wfTx_iff_parsed t).2 ⟨_, ht⟩, h1, h2, by intro hn; rw [hn] at h3; simp at h3, rfl⟩
 
 /- non-vacuity: a concrete coinbase-style v2 transaction is well-formed (so the hypotheses are satisfiable) -/
 example : wfTx ⟨⟨2, 0, [.gen 5], [], []⟩, [], some ⟨0, 0, [], [], []⟩, none⟩ := by
